@@ -7,7 +7,7 @@ import (
 	"golang.org/x/tools/go/ssa"
 )
 
-// NOTE: uses the helpers c15ReceiverMethods, c15FieldStores and c15RetShapes defined in props_c15.go.
+// NOTE: uses the helpers c15ReceiverMethods, c15FieldStores, c15RetShapes and c15GuardRef defined in props_c15.go.
 
 func init() {
 	register(&PropSpec{
@@ -232,7 +232,10 @@ func (c *Ctx) c16Mutate(rule string, fn *ssa.Function, writeShape string) {
 	c.add("shape", rule, fname+"#mutated-row", Held, c.P.InstrPos(calls[0]), "mutate runs on a single private copy of the row loaded from the store")
 	N := Path(nAlloc)
 	mut := CallTo{"dyn:mutate(*"}
-	c.Guard(rule, fn, mut, "pkg/db/meta.Table.*(*)#1 == true", "!"+E+".Tombstone")
+	// E and N were resolved above by SSA identity; guards name them through back-references (c15GuardRef),
+	// not through the identifiers the locals happen to have.
+	refs := map[string]string{"loaded": E, "copy": N}
+	c.c15GuardRef(rule, fn, mut, refs, "pkg/db/meta.Table.*(*)#1 == true", "!‹loaded›.Tombstone")
 	shape := strings.ReplaceAll(strings.ReplaceAll(writeShape, "%E", E), "%N", N)
 	callee := shape
 	for i := 0; i < len(shape); i++ {
@@ -242,5 +245,5 @@ func (c *Ctx) c16Mutate(rule string, fn *ssa.Function, writeShape string) {
 		}
 	}
 	c.CallShape(rule, fn, callee, shape)
-	c.Guard(rule, fn, CallTo{callee}, "after: dyn:mutate("+N+")")
+	c.c15GuardRef(rule, fn, CallTo{callee}, refs, "after: dyn:mutate(‹copy›)")
 }
